@@ -83,6 +83,9 @@ pub fn in_lib() -> bool {
 }
 
 pub fn script_panic() -> ! {
+  unsafe {
+    crate::alloc::PANIC_SKIP_ONCE = true;
+  }
   std::panic::resume_unwind(Box::new(ScriptPanic))
 }
 
